@@ -579,3 +579,27 @@ package hotline
 //@ func (s *Stats) Get(key int) (r int)
 //@   property C03
 //@   guarded_by s.mu: stats
+
+// ---------------------------------------------------------------------------------
+// C12: private chat membership.  Join adds exactly the joining client to the addressed chat, Leave
+// removes exactly the leaving client and never the chat itself, other chats are untouched.
+
+//@ func (cm *MemChatManager) Join(id ChatID, cc *ClientConn)
+//@   property C12
+//@   requires cm != nil && cc != nil && has(cm.chats, id) && get(cm.chats, id) != nil && !isnil(get(cm.chats, id).ClientConn)
+//@   ensures has(get(cm.chats, id).ClientConn, cc.ID) && get(get(cm.chats, id).ClientConn, cc.ID) == cc
+//@   ensures forall(a, 0, 256, forall(b, 0, 256, (a != cc.ID[0] || b != cc.ID[1]) ==> has(get(cm.chats, id).ClientConn, seq(a, b)) == has_old(get(cm.chats, id).ClientConn, seq(a, b))))
+//@   ensures forall(k0, 0, 256, forall(k1, 0, 256, forall(k2, 0, 256, forall(k3, 0, 256, has(cm.chats, seq(k0, k1, k2, k3)) == has_old(cm.chats, seq(k0, k1, k2, k3)) && get(cm.chats, seq(k0, k1, k2, k3)) == get_old(cm.chats, seq(k0, k1, k2, k3))))))
+
+//@ func (cm *MemChatManager) Leave(id ChatID, clientID [2]byte)
+//@   property C12
+//@   requires cm != nil && (has(cm.chats, id) ==> get(cm.chats, id) != nil)
+//@   ensures has(cm.chats, id) ==> !has(get(cm.chats, id).ClientConn, clientID)
+//@   ensures has(cm.chats, id) ==> forall(a, 0, 256, forall(b, 0, 256, (a != clientID[0] || b != clientID[1]) ==> has(get(cm.chats, id).ClientConn, seq(a, b)) == has_old(get(cm.chats, id).ClientConn, seq(a, b))))
+//@   ensures forall(k0, 0, 256, forall(k1, 0, 256, forall(k2, 0, 256, forall(k3, 0, 256, has(cm.chats, seq(k0, k1, k2, k3)) == has_old(cm.chats, seq(k0, k1, k2, k3)) && get(cm.chats, seq(k0, k1, k2, k3)) == get_old(cm.chats, seq(k0, k1, k2, k3))))))
+
+//@ func (cm *MemChatManager) New(cc *ClientConn) (id ChatID)
+//@   property C12
+//@   requires cm != nil && cc != nil && !isnil(cm.chats)
+//@   ensures has(cm.chats, id) && get(cm.chats, id) != nil && has(get(cm.chats, id).ClientConn, cc.ID) && get(get(cm.chats, id).ClientConn, cc.ID) == cc
+//@   ensures forall(a, 0, 256, forall(b, 0, 256, (a != cc.ID[0] || b != cc.ID[1]) ==> !has(get(cm.chats, id).ClientConn, seq(a, b))))
